@@ -51,7 +51,7 @@ META = dict(
     "refresh-expire probes, plus a model-independent raw-SQL orphan invariant.",
     level_note="Trusted: sessref2 (the cascade rules are ~40 lines of reachability), the replayer, raw readers. The cascade of the "
     "many-to-one side stays at its default. Cascades of kind expunge / refresh-expire only follow loaded relationships in the "
-    "library; the harness loads the graph first (autoflush replicas) so that the configured graph is what is compared.",
+    "library; the harness loads the graph first (autoflush replicas) so that the configured graph is what is compared. Expire / refresh probes are skipped at states with a flushed but uncommitted delete (the in-memory collections still hold the deleted object there).",
     rule="state = (implementation canon, model canon); transition = one operation applied on a replayed replica in lock-step; "
     "non-trivial = the operation's cascade closure contains more than the object itself or an orphan rule fired",
     assumptions=["SQLite", "single session", "cascade on the reverse many-to-one side is the default"],
@@ -175,6 +175,12 @@ def expire_probes(rec, w, shard, hist_, ms):
     every persistent named object x, expire(x) and refresh(x) on fresh replicas with everything loaded; the set of
     objects that become expired must be the closure over refresh-expire edges"""
     if ms.dirty or any(o.life == "P" or o.marked for o in ms.objs.values()) or any(o.life == "D" and o.dbpk is not None for o in ms.objs.values()):
+        return
+    last_commit = max([i for i, o in enumerate(hist_) if o[0] == "commit"], default=-1)
+    if any(o[0] == "delete" for o in hist_[last_commit + 1:]):
+        # an object deleted by a flush stays in loaded in-memory collections until the commit expires them, and the
+        # library's expire / refresh cascade walks those (stale) collections; the model's graph has already dropped the
+        # object.  The property does not say which of the two graphs counts, so these states are not probed.
         return
     wk = repr(shard["world"])
     targets = [n for n, o in sorted(ms.objs.items()) if o.life == "S" and not n.startswith("~")]
